@@ -163,23 +163,13 @@ def hasOctalBackref : List Nat → Bool
   | _ :: r => hasOctalBackref r
   | [] => false
 
-def hasTwoDigitRef (n : Nat) : List Nat → Bool
-  | 36 :: 36 :: r => hasTwoDigitRef n r
-  | 36 :: a :: b :: r =>
-    (isDigitC a ∧ isDigitC b ∧ 10 ≤ (a - 48) * 10 + (b - 48) ∧ (a - 48) * 10 + (b - 48) ≤ n) || hasTwoDigitRef n (a :: b :: r)
-  | _ :: r => hasTwoDigitRef n r
-  | [] => false
-
 def devNew (pat flags : List Nat) : List String :=
-  let fl := if flags.any (fun c => c ≠ 103 ∧ c ≠ 105 ∧ c ≠ 109) then ["flags_unknown"] else []
   let pt := match parsePattern false pat with
     | .ok r =>
-      (if Re.any (fun | .set _ [] => true | _ => false) r then ["empty_class"] else []) ++
       (if r.unsupported ∧ hasOctalBackref pat then ["backref_octal"] else []) ++
-      (if Re.any (fun | .quant _ q _ => decide (q.min > 1000) || (match q.max with | some k => decide (k > 1000) | none => false) | _ => false) r ∨ !goRepeatOk r then ["repeat_limit"] else []) ++
-      (if Re.any (fun | .quant _ (.rep n) _ | .quant _ (.repFrom n) _ => leadZero n | .quant _ (.repRange n k) _ => leadZero n || leadZero k | _ => false) r then ["repeat_leading_zero"] else [])
+      (if Re.any (fun | .quant _ q _ => decide (q.min > 1000) || (match q.max with | some k => decide (k > 1000) | none => false) | _ => false) r ∨ !goRepeatOk r then ["repeat_limit"] else [])
     | _ => ["lenient_syntax"]
-  fl ++ pt
+  pt
 
 def devX (pat flags subj : List Nat) (steps : List Step) : List String :=
   let base := devNew pat flags
@@ -189,7 +179,6 @@ def devX (pat flags subj : List Nat) (steps : List Step) : List String :=
     let g := flags.contains 103
     let ic := flags.contains 105
     let ml := flags.contains 109
-    let nonAscii := subj.any (· ≥ 128)
     let has (p : Step → Bool) := steps.any p
     let execLike := has fun | .exec | .test => true | .mtch => !g | _ => false
     let allLike := has fun | .mtch => g | .replaceS _ | .replaceF => g | .split _ => true | _ => false
@@ -205,12 +194,8 @@ def devX (pat flags subj : List Nat) (steps : List Step) : List String :=
     (if anyMatch ∧ Re.any (fun | .quant b _ _ => nullable b | _ => false) r then ["nullable_loop"] else []) ++
     (if anyMatch ∧ chars.any (· ≥ 0x10000) then ["astral_subject"] else []) ++
     (if g ∧ execLike ∧ Re.any (fun | .bol | .wordb | .nwordb => true | _ => false) r then ["exec_substring"] else []) ++
-    (if g ∧ nonAscii ∧ (execLike ∨ allLike) then ["lastindex_bytes"] else []) ++
-    (if nonAscii ∧ has (· == .search) then ["search_bytes"] else []) ++
-    (if g ∧ has (· == .mtch) then ["match_global"] else []) ++
-    (if g ∧ has (fun | .replaceS _ | .replaceF => true | _ => false) then ["replace_global_lastindex"] else []) ++
-    (if nl ∧ allLike then ["empty_adjacent"] else []) ++
-    (if has (fun | .replaceS rv => hasTwoDigitRef r.ngroups rv | _ => false) then ["subst_two_digit"] else [])
+    (if g ∧ has (· == .mtch) then ["match_global_lastindex"] else []) ++
+    (if nl ∧ allLike then ["empty_adjacent"] else [])
   | _ => base
 
 def devOut (ds : List String) : String := if ds.isEmpty then "-" else String.intercalate "," ds
